@@ -1,11 +1,83 @@
-(* Properties/C13.v — statements only; proofs live in Proofs/. *)
-From Coq Require Import List NArith Bool.
-From C2PA Require Import Base.Bytes Model.RangeHash Proofs.BytesProofs.
+(* Properties/C13.v — Range hashing equals the digest of exactly the selected bytes.
+   Statements only; every theorem is closed by [exact] of a lemma in Proofs/.
+   The model (Model/RangeHash.v) returns the list of byte strings handed to Hasher::update; the
+   hasher input is their concatenation, so "digest of exactly the selected bytes" is
+   [hasher_input r = <selected bytes>] for any hash function. *)
+From Coq Require Import List NArith Bool Lia.
+From C2PA Require Import Base.Bytes Model.RangeHash Model.HashPipeline
+     Proofs.BytesProofs Proofs.RangeHashProofs Proofs.HashPipelineProofs Generated.C13_facts.
 Import ListNotations.
 Open Scope N_scope.
 
-(* chunk-size independence of the hasher input at the level of one range *)
-Theorem c13_chunks_concat :
-  forall (A : Type) (fuel k : nat) (l : list A),
-    (1 <= k)%nat -> (length l <= fuel)%nat -> concat (chunks fuel k l) = l.
-Proof. exact @chunks_concat. Qed.
+(* Exclusion mode, any unsorted/overlapping/adjacent/empty in-bounds ranges, any chunk size:
+   the hasher receives exactly the bytes not covered by an exclusion, in file order. *)
+Theorem c13_exclusion_spec :
+  forall debug data hr buf,
+    1 <= len data -> len data < U64 -> (debug = false \/ len data < U32) -> 1 <= buf ->
+    Forall no_marker hr -> Forall (in_bounds (len data)) hr ->
+    exists r, hash_model debug data hr true buf = Ok r /\ hasher_input r = sel hr 0 data.
+Proof. exact exclusion_spec. Qed.
+
+(* Inclusion mode (markers allowed): each non-empty range's bytes in stable start order, each preceded by
+   its 8-byte big-endian marker, outside the known class F-MARKER1 (a one-byte range starting at a marker). *)
+Theorem c13_inclusion_spec :
+  forall debug data hr buf,
+    1 <= len data -> len data < U64 -> 1 <= buf -> hr <> [] ->
+    Forall (in_bounds (len data)) hr ->
+    (debug = false \/ total_ticks buf (incl_vec (sort_by hstart hr)) < U32) ->
+    ~ known_incl hr ->
+    exists r, hash_model debug data hr false buf = Ok r /\ hasher_input r = sel_incl data hr.
+Proof. exact inclusion_spec. Qed.
+
+(* the known class is real: witnesses evaluated on the model (and replayed on the implementation by ./check) *)
+Theorem c13_marker1_refuted :
+  exists r, hash_model true marker1_data marker1_ranges true 4 = Ok r
+            /\ hasher_input r = be 8 5 ++ be 8 5 /\ hasher_input r <> be 8 5 ++ [15].
+Proof. exact marker1_refuted. Qed.
+
+(* chunk-size independence: cutting a range into chunks of any size >= 1 and absorbing them in order
+   feeds the hasher the same bytes *)
+Theorem c13_chunk_independent :
+  forall (fuel k : nat) (l : bytes), (1 <= k)%nat -> (length l <= fuel)%nat -> concat (chunks fuel k l) = l.
+Proof. exact (@chunks_concat N). Qed.
+
+(* the source's default chunk size satisfies the hypothesis [1 <= buf] of the theorems above *)
+Theorem c13_default_buf_ok : 1 <= MAX_HASH_BUF /\ MAX_HASH_BUF < U64.
+Proof. unfold MAX_HASH_BUF, U64. lia. Qed.
+
+(* thread pipelining: every terminating interleaving of main thread and worker absorbs the chunks in order,
+   no reachable state is stuck, and every schedule terminates (strictly decreasing measure) *)
+Theorem c13_schedule_independent :
+  forall c p h, psteps (PLoop [] c p) (PDone h) -> h = c :: p.
+Proof. exact schedule_independent. Qed.
+Theorem c13_pipeline_no_deadlock :
+  forall s, (exists h, s = PDone h) \/ exists s', pstep s s'.
+Proof. exact no_deadlock. Qed.
+Theorem c13_pipeline_terminates :
+  forall s s', pstep s s' -> (pmeasure s' < pmeasure s)%nat.
+Proof. exact pstep_decreases. Qed.
+
+(* a range (of either mode, marker or not) reaching past the end of the data is an error, never a digest *)
+Theorem c13_past_end_rejected :
+  forall debug data hr excl buf,
+    Exists (fun r => len data < hstart r + hlen r) hr ->
+    exists e, hash_model debug data hr excl buf = Err e.
+Proof. exact past_end_rejected. Qed.
+
+Theorem c13_empty_stream :
+  forall debug hr excl buf, hash_model debug [] hr excl buf = Err ENoData.
+Proof. exact empty_stream. Qed.
+
+(* progress: callbacks are numbered 1..n and n equals the announced total (streams below 4 GiB) *)
+Theorem c13_progress :
+  forall debug data hr buf,
+    1 <= len data -> len data < U32 -> 1 <= buf ->
+    Forall no_marker hr -> Forall (in_bounds (len data)) hr ->
+    exists r, hash_model debug data hr true buf = Ok r /\ nticks r = total r.
+Proof. exact exclusion_progress. Qed.
+
+(* non-vacuity: the hypotheses are met by a non-trivial input, and the model computes the expected bytes *)
+Example c13_example :
+  hash_run true [1;2;3;4;5;6;7;8;9;10] [HR 7 2 None; HR 1 3 None; HR 2 4 None; HR 0 0 None] true 3
+  = Ok ([1;7;10], 3, 3).
+Proof. vm_compute. reflexivity. Qed.
